@@ -130,6 +130,13 @@ class _StatePointDict(JSONAttrDict):
                 os.replace(job.path, new_workspace)
             except OSError as error:
                 os.replace(tmp_statepoint_file, self.filename)  # rollback
+                # Roll back the in-memory state point as well, otherwise the
+                # job handles would describe a job they do not point to.
+                old_statepoint = job._cached_statepoint
+                if old_statepoint is None:
+                    old_statepoint = self._load_from_resource()
+                with self._suspend_sync:
+                    self._update(old_statepoint, _validate=False)
                 if error.errno in (errno.EEXIST, errno.ENOTEMPTY, errno.EACCES):
                     raise DestinationExistsError(new_id)
                 else:
